@@ -47,7 +47,7 @@ impl Property for C15 {
         vec!["links the statement does not list (layer->material, construction->glazing/frame, space->loads, schedules) are not required to produce warnings and are left intact in this workload".into()]
     }
     fn workloads(&self, tier: Tier) -> Vec<(String, u64)> {
-        vec![("real".into(), real_count()), ("closed".into(), tier.pick(300, 20_000)), ("broken".into(), tier.pick(2500, 200_000)), ("warnings-with-indicators".into(), tier.pick(120, 6000))]
+        vec![("real".into(), real_count()), ("closed".into(), tier.pick(900, 20_000)), ("broken".into(), tier.pick(7500, 200_000)), ("warnings-with-indicators".into(), tier.pick(360, 6000))]
     }
     fn required(&self, _tier: Tier) -> Vec<(String, u64)> {
         vec![
@@ -310,7 +310,7 @@ impl Property for C16 {
         vec!["override entries of removed elements are outside the statement and not checked".into()]
     }
     fn workloads(&self, tier: Tier) -> Vec<(String, u64)> {
-        vec![("real".into(), real_count()), ("generated".into(), tier.pick(1200, 100_000)), ("with-indicators".into(), tier.pick(200, 8000))]
+        vec![("real".into(), real_count()), ("generated".into(), tier.pick(3600, 100_000)), ("with-indicators".into(), tier.pick(600, 8000))]
     }
     fn required(&self, _tier: Tier) -> Vec<(String, u64)> {
         let mut v: Vec<(String, u64)> = ["spaces", "thermal_bridges", "wallcons", "wincons", "materials", "glasses", "frames", "loads", "thermostats", "schedules.year", "schedules.week", "schedules.day"]
